@@ -45,13 +45,23 @@ Definition modpow (b e m : Z) : Z :=
 Definition euler_qr (g p : Z) : bool := modpow g ((p - 1) / 2) p =? 1.
 Definition qr_agrees (p : Z) : bool :=
   forallb (fun g => Bool.eqb (check_gp g p =? 0) (euler_qr g p)) [2; 3; 4; 5; 6; 7].
-Definition qr_bound : Z := 4000.
-Definition qr_n : nat := 4000.
+Definition qr_bound : Z := 8000.
+Definition qr_n : nat := Nat.mul 80 100.
 Definition qr_chk (p : Z) : bool := if (6 <? p) && safe_primeb p then qr_agrees p else true.
 (* f s && f (s+1) && ... (n terms) *)
 Fixpoint zall (f : Z -> bool) (n : nat) (s : Z) : bool :=
   match n with O => true | S k => f s && zall f k (s + 1) end.
 Definition all_safe_primes_agree : bool := zall qr_chk qr_n 0.
+
+(* residue classes modulo 840 = lcm(8,3,5,24,7) that a safe prime p > 11 can occupy:
+   p = 2q+1 with q an odd prime > 5 forces p = 11 (mod 12), p mod 5 in {2,3,4}, p mod 7 in {2..6} *)
+Definition admissible_class (r : Z) : bool :=
+  (r mod 12 =? 11) && negb (r mod 5 =? 0) && negb (r mod 5 =? 1) && negb (r mod 7 =? 0) && negb (r mod 7 =? 1).
+Fixpoint zlist (n : nat) (s : Z) : list Z := match n with O => [] | S k => s :: zlist k (s + 1) end.
+Definition safe_primes_below_bound : list Z := filter (fun p => (11 <? p) && safe_primeb p) (zlist qr_n 0).
+Definition classes_covered : bool :=
+  forallb (fun r => negb (admissible_class r) || existsb (fun p => p mod 840 =? r) safe_primes_below_bound) (zlist 840 0)
+  && forallb (fun p => admissible_class (p mod 840)) safe_primes_below_bound.
 
 (* ---------- DecomposePQ ---------- *)
 Inductive pqerr := ERand | EFuel | EReject.
